@@ -136,6 +136,8 @@ structure Cfg.GoodScan (c : Cfg) : Prop where
   linkGoneEsrch : c.linkGoneEsrch = true
   infoGoneEnoent : c.infoGoneEnoent = true
   infoGoneEsrch : c.infoGoneEsrch = true
+  infoReadGoneEnoent : c.infoReadGoneEnoent = true
+  infoReadGoneEsrch : c.infoReadGoneEsrch = true
   finalAliveCheck : c.finalAliveCheck = true
 
 def posLine (pos : Nat) : Bytes := [112, 111, 115, 58] ++ [9] ++ renderDec pos
@@ -178,13 +180,34 @@ theorem splitWs_flagsLine (flags : Nat) :
 theorem fdinfoText_eq (d : Fd) :
     fdinfoText d = posLine d.pos ++ 10 :: (flagsLine d.flags ++ 10 :: d.tail) := rfl
 
+theorem intField_posLine (c : Cfg) (hg : c.GoodScan) (pos : Nat) :
+    intField c.posIdx c.posBase (posLine pos) = .ok pos := by
+  simp [intField, hg.posIdx, hg.posBase, splitWs_posLine, pyInt_dec]
+
+theorem intField_flagsLine (c : Cfg) (hg : c.GoodScan) (flags : Nat) :
+    intField c.flagsIdx c.flagsBase (flagsLine flags) = .ok flags := by
+  simp [intField, hg.flagsIdx, hg.flagsBase, splitWs_flagsLine, pyInt_oct]
+
 theorem parseFdinfo_render (c : Cfg) (hg : c.GoodScan) (d : Fd) :
     parseFdinfo c (fdinfoText d) = .ok (d.pos, d.flags) := by
   unfold parseFdinfo
   rw [fdinfoText_eq, splitOn_append 10 _ _ (posLine_no_nl d.pos),
     splitOn_append 10 _ _ (flagsLine_no_nl d.flags)]
-  simp only [List.getD_cons_zero, List.getD_cons_succ, hg.posIdx, hg.flagsIdx, hg.posBase, hg.flagsBase,
-    splitWs_posLine, splitWs_flagsLine, List.getElem?_cons_succ, List.getElem?_cons_zero, pyInt_dec, pyInt_oct]
+  simp only [List.getD_cons_zero, List.getD_cons_succ, intField_posLine c hg, intField_flagsLine c hg]
+
+/-- reading the rendered fdinfo: all reads succeed → the record; a failing first or second
+    read → "gone at read" (the first line parses, so nothing else is raised before) -/
+theorem readFdinfo_render (c : Cfg) (hg : c.GoodScan) (d : Fd) :
+    readFdinfo c (.ok (fdinfoText d)) = .ok d.pos d.flags ∧
+    ∀ second e, readFdinfo c (.readErr (fdinfoText d) second e) = .goneAtRead e := by
+  refine ⟨by simp [readFdinfo, parseFdinfo_render c hg d], ?_⟩
+  intro second e
+  cases second with
+  | false => rfl
+  | true =>
+    simp only [readFdinfo]
+    rw [fdinfoText_eq, splitOn_append 10 _ _ (posLine_no_nl d.pos)]
+    simp only [List.getD_cons_zero, intField_posLine c hg]
 
 /-! ### `readlink()`: NUL cut and the ' (deleted)' rule -/
 
@@ -322,6 +345,7 @@ def hits (fs : FS) (d : Fd) : Bool :=
   match d.closesAt with
   | some (.beforeReadlink _) => true
   | some (.beforeFdinfo _) => (target fs d.kind).isSome
+  | some (.duringFdinfo _ _) => (target fs d.kind).isSome
   | none => false
 
 theorem listed_eq (fs : FS) (d : Fd) :
@@ -356,13 +380,20 @@ theorem scanOne_render (c : Cfg) (hg : c.GoodScan) (hm : ∀ flags, fileFlagsToM
       simp only [hcond]
       cases ht : target fs d.kind with
       | none => simp
-      | some q => cases e <;> simp [infoErrStep, hg.infoGoneEnoent, hg.infoGoneEsrch]
+      | some q => cases e <;> simp [readFdinfo, infoErrStep, hg.infoGoneEnoent, hg.infoGoneEsrch]
+    | duringFdinfo second e =>
+      simp only [hcond]
+      cases ht : target fs d.kind with
+      | none => simp
+      | some q =>
+        cases e <;> simp [(readFdinfo_render c hg d).2, infoReadErrStep, hg.infoReadGoneEnoent,
+          hg.infoReadGoneEsrch]
   | none =>
     simp only [hcond]
     cases ht : target fs d.kind with
     | none => simp
     | some q =>
-      simp only [Option.isSome_some, if_true, parseFdinfo_render c hg d, hm, pyInt_dec,
+      simp only [Option.isSome_some, if_true, (readFdinfo_render c hg d).1, hm, pyInt_dec,
         hpath q ht, Option.map_some, Bool.false_eq_true, if_false]
 
 /-- the whole loop over a rendered table -/
